@@ -487,58 +487,26 @@ def _variants():
 
 def dispatch_polarity(m: SharedModel, targets):
     """Find the function that refers to both level constructions and say under which polarity of
-    `isinstance(self.basis, Basis)` each one is reached: 'Basis', 'not Basis' or '?'.
-    Understands if/else, `if C: ...; return` followed by the other case, and a conditional expression selecting
-    the bound method."""
+    `isinstance(self.basis, Basis)` each one is reached: 'Basis', 'not Basis' or '?'."""
+    from ..core import method_reference_polarity
+
     names = [t.name for t in targets]
+
+    def classify(test: ast.AST):
+        t = unparse(test)
+        if t == "isinstance(self.basis, Basis)":
+            return "T"
+        if t in ("not isinstance(self.basis, Basis)", "isinstance(self.basis, MeshBasis)"):
+            return "F"
+        return None
+
     for fi in m.funcs:
-        refs = {nm: [n for n in walk_no_nested(fi.node) if isinstance(n, ast.Attribute) and n.attr == nm and isinstance(n.value, ast.Name)] for nm in names}
-        if not all(refs.values()):
+        pol = method_reference_polarity(fi, names, classify)
+        if pol is None:
             continue
-        out = {}
-
-        def classify(test: ast.AST):
-            t = unparse(test)
-            if t in ("isinstance(self.basis, Basis)",):
-                return "Basis"
-            if t in ("not isinstance(self.basis, Basis)", "isinstance(self.basis, MeshBasis)"):
-                return "not Basis"
-            return None
-
-        def flip(p):
-            return {"Basis": "not Basis", "not Basis": "Basis"}.get(p, "?")
-
-        def walk(stmts, cond):
-            for i, st in enumerate(stmts):
-                if isinstance(st, ast.If):
-                    p = classify(st.test)
-                    walk(st.body, p if p and cond is None else (cond if p is None else "?"))
-                    walk(st.orelse, flip(p) if p and cond is None else (cond if p is None else "?"))
-                    ends = bool(st.body) and isinstance(st.body[-1], (ast.Return, ast.Raise, ast.Continue, ast.Break))
-                    if p and ends and not st.orelse and cond is None:
-                        walk(stmts[i + 1:], flip(p))
-                        return
-                    continue
-                for n in ast.walk(st):
-                    if isinstance(n, ast.IfExp):
-                        p = classify(n.test)
-                        for nm in names:
-                            if any(isinstance(x, ast.Attribute) and x.attr == nm for x in ast.walk(n.body)):
-                                out.setdefault(nm, set()).add(p if p and cond is None else "?")
-                            if any(isinstance(x, ast.Attribute) and x.attr == nm for x in ast.walk(n.orelse)):
-                                out.setdefault(nm, set()).add(flip(p) if p and cond is None else "?")
-                handled = {id(x) for n in ast.walk(st) if isinstance(n, ast.IfExp) for x in ast.walk(n)}
-                for n in ast.walk(st):
-                    if isinstance(n, ast.Attribute) and n.attr in names and id(n) not in handled:
-                        out.setdefault(n.attr, set()).add(cond if cond else "?")
-
-        walk(fi.body, None)
-        pols = []
-        for nm in names:
-            v = out.get(nm, {"?"})
-            pols.append(next(iter(v)) if len(v) == 1 else "?")
-        first = min((n for nm in names for n in refs[nm]), key=lambda n: n.lineno)
-        return fi, pols[0], pols[1], m.stmt_of(fi, first)
+        tr = {"T": "Basis", "F": "not Basis", "?": "?"}
+        first = min((n for n in walk_no_nested(fi.node) if isinstance(n, ast.Attribute) and n.attr in names), key=lambda n: n.lineno)
+        return fi, tr[pol[names[0]]], tr[pol[names[1]]], m.stmt_of(fi, first)
     return None
 
 
